@@ -6,6 +6,7 @@ use actix::prelude::*;
 use rnacos::common::hash_utils::get_hash_value;
 use rnacos::naming::cluster::model::{NamingRouteAddr, ProcessRange};
 use rnacos::naming::cluster::node_manage::{
+    VerifNodeManageCmd,
     InnerNodeManage, NodeManage, NodeManageRequest, NodeManageResponse, NodeStatus,
 };
 use rnacos::naming::core::NamingActor;
